@@ -259,3 +259,33 @@ Proof.
     rewrite <- (Qplus_0_l 0). apply Qplus_le_compat; auto.
   - rewrite qsum_scale, S_, L, Hsh. field. exact Hnz.
 Qed.
+
+(* scaling by s <> 0 keeps the points pairwise different *)
+Lemma Forall2_cons_inv {A B} (R : A -> B -> Prop) x a y b :
+  Forall2 R (x :: a) (y :: b) -> R x y /\ Forall2 R a b.
+Proof. intro H. inversion H; subst. auto. Qed.
+
+Lemma Forall2_scale_inv (s c : Q) : ~ (s == 0)%Q -> forall a b,
+  Forall2 Qeq (map (fun x => Qred (Qred (x * s) + c)%Q) a) (map (fun x => Qred (Qred (x * s) + c)%Q) b) ->
+  Forall2 Qeq a b.
+Proof.
+  intros Hs. induction a as [|x a IH]; intros [|y b] H; cbn [map] in H.
+  - constructor.
+  - inversion H.
+  - inversion H.
+  - apply Forall2_cons_inv in H. destruct H as [Hxy Hrest]. constructor; [|apply IH; exact Hrest].
+    rewrite !Qred_correct in Hxy.
+    apply (Qmult_inj_r x y s Hs). apply (Qplus_inj_r _ _ c). exact Hxy.
+Qed.
+
+Theorem ref_points_scaled_distinct nobj p s i j : 1 <= p -> ~ (s == 0)%Q ->
+  let pts := ref_points_q nobj p (Some s) in
+  i < length pts -> j < length pts -> i <> j -> ~ Forall2 Qeq (nth i pts []) (nth j pts []).
+Proof.
+  intros Hp Hs pts Hi Hj Hne F. unfold pts in *. rewrite ref_points_q_some in *.
+  rewrite map_length in Hi, Hj.
+  set (f := fun x => Qred (Qred (x * s) + shift_of nobj s)%Q) in *.
+  change (@nil Q) with (map f []) in F. rewrite !map_nth in F.
+  apply Forall2_scale_inv in F; [|exact Hs].
+  revert F. apply ref_points_distinct; assumption.
+Qed.
